@@ -2,7 +2,9 @@
 
 Asserted: whenever crc16 / crc32c RETURN a value for an argument, it is the checksum (per harness/ref/refcrc.py) of the bytes that
 argument holds at the moment of the call, in the requested byte order - whatever was computed before in the process, whatever other
-library entry point used the checksums before, and whichever Python buffer type carries the bytes.
+library entry point used the checksums before, and whichever Python buffer type carries the bytes. For a memoryview "the bytes it
+holds" are the bytes it READS (tobytes()): with a step, backwards, from an offset, as rows of a 2-D / 3-D shape, in format 'b' / 'c' -
+not the bytes of the object it looks into.
 Not asserted: that a given buffer type is accepted at all (a refusal by exception is fine for anything but bytes / bytearray /
 memoryview of them), anything about Cell.to_boc / from_boc / Address themselves (they only appear as earlier history), speed.
 """
@@ -16,6 +18,11 @@ RULE = ('cases are byte strings (hex). exhaustive sub-check: every string of len
         'edited-in-place: ONE buffer object of 16 kinds (bytearray, hashable bytearray subclass, anonymous mmap, read-only file mapping written '
         'through a second handle, array, ctypes array, and writable / read-only / sliced / signed-char / re-created memoryviews of them) asked '
         'before and after 1..3 in-place edits and after the original content is restored, plus short-lived equal copies; '
+        'views: the string is what a memoryview reads, laid out inside a larger / differently ordered object of 8 kinds (bytes, bytes subclass, '
+        'bytearray, view of a view, array B / H, mmap, ctypes array) by 1..3 slicings on top of each other (steps 1, -1, 2, -2, 3, -3, 7, -7; 0..5 '
+        'filler items before / after; open-ended bounds; also full-span reversed and double-reversed), 1-D or rows of a 2-D / 3-D cast, formats '
+        'B / b / c, read-only or not; asked: the view, the object under it, the view again, the view read the other way round, a second equal '
+        'view, and all of these again after one byte was changed through the view; '
         'designed-pairs: two different strings (16 B .. 70 kB, thorough 300 kB) asked alternately that agree in length and in IEEE CRC-32 '
         '(generator polynomial or a multiple of it xored into the bit stream at start / middle / end), Adler-32, the other one of the two '
         'checksums, CRC-32 and byte sum together, the multiset of bytes, everything but the first / last byte / one middle bit, or that '
@@ -75,7 +82,10 @@ def check(case):
         for name, d in (('memoryview', memoryview(data)), ('memoryview-signed-char', memoryview(data).cast('b')),
                         ('memoryview-of-bytearray', memoryview(bytearray(data))),
                         ('memoryview-slice-of-a-larger-buffer', memoryview(pad + data + pad)[3:3 + len(data)]),
-                        ('memoryview-slice-of-a-larger-bytearray', memoryview(bytearray(pad + data + pad))[3:-3])):
+                        ('memoryview-slice-of-a-larger-bytearray', memoryview(bytearray(pad + data + pad))[3:-3]),
+                        # views that do not read their object front to back (more of them: sub-check 'views')
+                        ('memoryview-reading-backwards', memoryview(data[::-1])[::-1]),
+                        ('memoryview-reading-every-second-byte', memoryview(bytearray(b'\x5a'.join(bytes([x]) for x in data)))[::2])):
             ok16, g16 = _try(crc16, d)
             ok32, g32 = _try(crc32c, d)
             if (ok16 and g16 != r16.to_bytes(2, 'big')) or (ok32 and g32 != r32.to_bytes(4, 'little')):
@@ -322,6 +332,237 @@ def enum_edited(tier):
         for n in (1, 9, 34, 300, 4096, 4099):
             for pos, x in ((0, 1), (n // 2, 0x80), (-1, 0xFF)):
                 yield {'data': (bytes(range(49, 58)) * (n // 9 + 1))[:n].hex(), 'kind': kind, 'edits': [[pos, x], [pos + 1, 1]]}
+
+
+# ---------------------------------------------------------------------------------------------------------------------
+# views whose bytes are NOT the bytes of the object they look into (strided, reversed, offset, multi-dimensional, re-formatted)
+
+_VIEW_OWNERS = ['bytes', 'bytes-subclass', 'bytearray', 'view-of-a-view-of-bytearray', 'array-B', 'array-H', 'mmap', 'ctypes-array']
+
+
+def _lay(units, op, junk):
+    """inverse of one slicing step: -> (units of the source, slice) with source[slice] == units; op = [units of filler before,
+    units of filler after (both in memory order), step != 0]. Open-ended slice bounds wherever they select the same items."""
+    pre, post, step = op
+    k, m = abs(step), len(units)
+    body = []
+    for i, u in enumerate(units if step > 0 else units[::-1]):
+        if i:
+            body += [junk() for _ in range(k - 1)]
+        body.append(u)
+    src = [junk() for _ in range(pre)] + body + [junk() for _ in range(post)]
+    lo, hi = pre, pre + (m - 1) * k              # memory index of the first / last selected unit
+    if step > 0:
+        sl = slice(lo if lo else None, hi + 1 if post >= k else None, step if step != 1 or pre or post else None)
+    else:
+        sl = slice(hi if post else None, lo - 1 if pre >= k else None, step)
+    return src, sl
+
+
+def _make_view(case):
+    """-> (owner, make() giving a NEW view object each time, close()); make().tobytes() == the case's data"""
+    import math
+    data = bytes.fromhex(case['data'])
+    tail = list(case.get('tail') or [])
+    w = math.prod(tail) if tail else 1
+    if not data or len(data) % w:
+        raise RuntimeError(f'case not built as designed (harness): {len(data)} bytes in rows of {w}')
+    counter = [0]
+
+    def junk():
+        counter[0] += 1
+        return bytes((counter[0] * 37 + j * 11 + 0xC3 + data[(counter[0] + j) % len(data)]) & 0xFF for j in range(w))
+    units = [data[i:i + w] for i in range(0, len(data), w)]
+    slices = []
+    for op in reversed(case['ops']):
+        units, sl = _lay(units, op, junk)
+        slices.insert(0, sl)
+    raw = b''.join(units)
+    kind = case['owner']
+    close = lambda: None
+    if kind == 'array-H' and len(raw) % 2:
+        kind = 'array-B'
+    if kind == 'bytes':
+        owner = raw
+    elif kind == 'bytes-subclass':
+        class Payload(bytes):
+            pass
+        owner = Payload(raw)
+    elif kind in ('bytearray', 'view-of-a-view-of-bytearray'):
+        owner = bytearray(raw)
+    elif kind.startswith('array'):
+        import array
+        owner = array.array(kind[-1])
+        owner.frombytes(raw)
+    elif kind == 'mmap':
+        import mmap
+        owner = mmap.mmap(-1, len(raw))
+        owner[:] = raw
+
+        def close():
+            try:
+                owner.close()
+            except Exception:
+                pass                                    # somebody still holds a view: the mapping goes with the process
+    elif kind == 'ctypes-array':
+        import ctypes
+        owner = (ctypes.c_ubyte * len(raw))(*raw)
+    else:
+        raise ValueError(kind)
+    fmt = case.get('fmt', 'B')
+
+    def make():
+        v = memoryview(owner)
+        if kind.startswith('view-of-a-view'):
+            v = memoryview(v[:])
+        if v.format != 'B' or v.ndim != 1:
+            v = v.cast('B')
+        if tail:
+            v = v.cast(fmt, shape=[len(raw) // w] + tail)
+        elif fmt != 'B':
+            v = v.cast(fmt)
+        for sl in slices:
+            v = v[sl]
+        if case.get('readonly'):
+            v = v.toreadonly()
+        return v
+    return owner, make, close
+
+
+def _ask(obj, content, what):
+    """-> None or a sentence: a value RETURNED for obj that is not the checksum of `content`"""
+    from pytoniq_core.crypto.crc import crc16, crc32c
+    e16, r32 = refcrc.crc16_xmodem_fast(content).to_bytes(2, 'big'), refcrc.crc32c_fast(content)
+    ok, g = _try(crc16, obj)
+    if ok and g != e16:
+        return f'crc16({what})={g!r}, CRC-16/XMODEM of its bytes {content.hex()[:60]} is {e16.hex()}'
+    for args in (('little',), ('big',), ()):
+        ok, g = _try(crc32c, obj, *args)
+        if ok and g != r32.to_bytes(4, *(args or ('little',))):
+            return f'crc32c({what}{"," if args else ""}{",".join(args)})={g!r}, CRC-32C of its bytes {content.hex()[:60]} is {r32.to_bytes(4, *(args or ("little",))).hex()}'
+    return None
+
+
+def check_views(case):
+    """the byte string is the logical content (tobytes()) of a memoryview that is not simply 'the whole object it looks into':
+    a step other than 1 (backwards too), an offset, several slicings on top of each other, rows of a 2-D / 3-D shape, a
+    re-formatted ('b', 'c') view, read-only - over every kind of buffer. A value RETURNED for such a view is the checksum of ITS
+    bytes; the object underneath, the view read the other way round, a second equal view and the view after an in-place edit
+    are asked in between (a refusal by exception is not a checksum error)."""
+    data = bytes.fromhex(case['data'])
+    owner, make, close = _make_view(case)
+    try:
+        view = make()
+        if view.tobytes() != data:
+            raise RuntimeError(f'view not built as designed (harness): {case}')
+        full = memoryview(owner).nbytes
+
+        def shape_of(v):             # signature bucket: how the bytes the view reads lie in the object
+            row = v.nbytes // v.shape[0]
+            return (('whole-object' if v.nbytes == full else 'contiguous-part') if v.c_contiguous else 'reversed' if v.strides[0] == -row
+                    else 'strided') + ('' if v.ndim == 1 else '-rows')
+        shape = shape_of(view)
+        what = f'{view.ndim}-D {"x".join(map(str, view.shape))} format {view.format!r} view, slicings {case["ops"]} over a {case["owner"]} of {memoryview(owner).nbytes} bytes'
+
+        def ask_all(v, content, when):
+            bad = _ask(v, content, what)
+            if bad:
+                return Fail(f'crc/view-answered-with-other-bytes/{shape}', f'{when}: {bad}')
+            if isinstance(owner, (bytes, bytearray)):
+                under = bytes(owner)
+                bad = _ask(owner, under, f'the {case["owner"]} under that view')
+                if bad:
+                    return Fail(f'crc/object-under-a-view-answered-with-other-bytes/{shape}', f'{when}, then the object itself: {bad}')
+            bad = _ask(v, content, what)
+            if bad:
+                return Fail(f'crc/view-answered-with-other-bytes/{shape}', f'{when}, after the object under it was asked: {bad}')
+            back = v[::-1]
+            other = back.tobytes()
+            if v.ndim == 1 and other != content[::-1]:
+                raise RuntimeError(f'reversed view not as designed (harness): {case}')
+            bad = _ask(back, other, what + ' read the other way round')
+            if bad:
+                return Fail(f'crc/view-answered-with-other-bytes/{shape_of(back)}', f'{when}: {bad}')
+            bad = _ask(make(), content, 'a second ' + what)
+            if bad:
+                return Fail(f'crc/view-answered-with-other-bytes/{shape}', f'{when}, second equal view: {bad}')
+            return None
+        f = ask_all(view, data, 'first')
+        if f:
+            return f
+        if not view.readonly and case.get('edit') is not None:
+            pos, x = case['edit']
+            pos %= len(data)
+            new = bytearray(data)
+            new[pos] ^= (x & 0xFF) or 1
+            w = len(data) // view.shape[0]
+            idx, rest = [pos // w], pos % w
+            for d in view.shape[:0:-1]:
+                idx.insert(1, rest % d)
+                rest //= d
+            val = new[pos]
+            val = bytes([val]) if view.format == 'c' else val - 256 if view.format == 'b' and val > 127 else val
+            view[tuple(idx) if view.ndim > 1 else idx[0]] = val
+            if view.tobytes() != bytes(new):
+                raise RuntimeError(f'edit through the view not as designed (harness): {case}')
+            f = ask_all(view, bytes(new), f'after byte {pos} was changed in place through the view')
+            if f:
+                return f
+    finally:
+        close()
+    return None
+
+
+_VIEW_RECIPES = [[[0, 0, 1]], [[0, 0, -1]], [[0, 0, 2]], [[0, 1, 2]], [[1, 0, 2]], [[0, 0, -2]], [[0, 1, -2]], [[1, 0, -1]], [[0, 1, -1]],
+                 [[3, 3, 1]], [[3, 3, -1]], [[2, 5, 3]], [[2, 5, -3]], [[0, 0, -7]], [[0, 0, -1], [0, 0, -1]], [[1, 1, -1], [0, 0, -1]],
+                 [[0, 0, 2], [0, 0, -1]], [[0, 0, -1], [0, 0, 2]], [[0, 1, 2], [1, 0, -1]], [[0, 0, -1], [0, 0, -1], [0, 0, -1]]]
+
+
+def enum_views(tier):
+    texts = [b'123456789', bytes(range(1, 13)), b'\x11' + bytes(range(200, 233)), bytes(range(36, 0, -1)), bytes(range(250, 256)) + bytes(range(250))]
+    i = 0
+    for data in texts:
+        n = len(data)
+        tails = [[], [1], [n]] + [[c] for c in (2, 3, 4, 16) if n % c == 0 and c < n][:2] + ([[2, 2]] if n % 4 == 0 else [])
+        for owner in _VIEW_OWNERS:
+            for ops in _VIEW_RECIPES:
+                for tail in tails:
+                    i += 1
+                    for fmt in ('B', 'b', 'c'):
+                        if fmt != 'B' and (i % 2 == (fmt == 'b') or n > 40):     # the re-formatted views: alternately, short texts only
+                            continue
+                        yield {'data': data.hex(), 'owner': owner, 'ops': ops, 'tail': tail, 'fmt': fmt, 'readonly': i % 5 == 0,
+                               'edit': [i * 7, (1, 0x80, 0xFF)[i % 3]]}
+
+
+def strat_views(tier):
+    tail = st.sampled_from([[], [], [], [1], [2], [3], [4], [16], [2, 2], [3, 2]])
+    step = st.sampled_from([1, -1, -1, 2, -2, 3, -3, 7, -7])
+    op = st.tuples(st.integers(0, 5), st.integers(0, 5), step).map(list)
+
+    def body(t):
+        import math
+        w = math.prod(t) if t else 1
+        rows = st.one_of(st.integers(1, 40), st.sampled_from([1, 2, 34, 36, 64, 256])) if w == 1 else st.integers(1, 24)
+        return rows.flatmap(lambda r: st.one_of(st.binary(min_size=r * w, max_size=r * w),
+                                                st.builds(lambda b: bytes((b + i) & 0xFF for i in range(r * w)), st.integers(0, 255))))
+    return tail.flatmap(lambda t: st.builds(
+        lambda d, o, ops, fmt, ro, e: {'data': d.hex(), 'owner': o, 'ops': ops, 'tail': t, 'fmt': fmt, 'readonly': ro, 'edit': e},
+        body(t), st.sampled_from(_VIEW_OWNERS), st.lists(op, min_size=1, max_size=3), st.sampled_from(['B', 'B', 'B', 'b', 'c']),
+        st.sampled_from([False, False, True]), st.one_of(st.none(), st.tuples(st.integers(0, 5000), st.sampled_from([1, 0x80, 0xFF, 0x55])).map(list))))
+
+
+def classify_views(case):
+    net = 1
+    for op in case['ops']:
+        net *= op[2]
+    yield case['owner']
+    yield 'format=' + case.get('fmt', 'B')
+    yield 'dims=%d' % (1 + len(case.get('tail') or []))
+    yield ('forward' if net > 0 else 'backward') + ('-every-byte' if abs(net) == 1 else '-with-gaps')
+    yield 'slicings=%d' % len(case['ops'])
+    if all(op[0] == 0 and op[1] < abs(op[2]) for op in case['ops']):
+        yield 'view-spans-the-whole-object'
 
 
 # ---------------------------------------------------------------------------------------------------------------------
@@ -691,6 +932,11 @@ SUBCHECKS = [
              'mapping written through another handle) asked again after each in-place edit and after the original content is restored'),
     Sub('edited-in-place', check_edited, strategy=strat_edited, classify=lambda c: [c['kind'], 'edits=%d' % len(c['edits'])],
         n=(150, 6000), shards=(8, 16)),
+    Sub('views-grid', check_views, enum=enum_views, classify=classify_views, shards=(8, 16),
+        note='the byte string is what a memoryview READS (tobytes()), not what the object under it holds: 20 slicing recipes (step 1, -1, 2, -2, '
+             '3, -3, -7, offsets, open-ended bounds, up to three slicings on top of each other) x 8 kinds of object x 1-D / rows of a 2-D / 3-D '
+             'shape x formats B, b, c; the object underneath, the view read backwards, a second equal view and an edit through the view in between'),
+    Sub('views', check_views, strategy=strat_views, classify=classify_views, n=(400, 12000), shards=(8, 16)),
     Sub('designed-pairs', check_pair, enum=enum_pairs, classify=lambda c: [c['kind'], 'n=%d' % c['n']], shards=(8, 16),
         note='two different strings asked one after the other (first, second, first, second) that agree in length and in another digest '
              '(IEEE CRC-32, Adler-32, the OTHER of the two checksums, byte sum, multiset of bytes, first/last kilobytes) or differ in '
